@@ -1,7 +1,7 @@
 """C07 Published bound formula: the term stored as the bound on the synchronised path is
 decomposed into its linear form and checked against |offset| + dispersion + delay/2 (+PHC),
 x 1e9, ceil."""
-from .. import psi, arith
+from .. import psi, arith, mir
 from ..psi import fmt
 from . import common
 from .updater_model import UpdaterModel
@@ -50,6 +50,34 @@ def run(ctx, chk):
         return
     sync = [i for i in m.infos if i['msg_name'] == 'ClockErrorBoundData' and bound_field in i['stores']]
     chk.floor('C07.F1', 'paths that store a new bound', len(sync), 1)
+    # ---- F6 precision: the sum is formed in double precision. A single-precision value anywhere between the chrony reply
+    # and the rounding (a helper returning f32, an `as f32`, an f32 addition) rounds to nearest with a 24-bit mantissa: the
+    # published bound can come out *below* the documented sum, by tens to hundreds of ns for delays of seconds. (The linear
+    # form above does not see it: widening conversions are exact.)
+    n_float = 0
+    narrow = []
+    for ob in {x.path: x for x, _, _, _ in common.reachable_calls(fb, m.dispatch)}.values():
+        if ob.crate.name != common.DAEMON:
+            continue
+        for bi, blk in enumerate(ob.blocks):
+            if mir.in_tracing(blk['tspan']):
+                continue
+            for st_ in blk['stmts']:
+                if st_['k'] != 'assign' or 'ty' not in st_['p']:
+                    continue
+                ts_ = ob.tystr(st_['p']['ty'])
+                if ts_ in ('f32', 'f64') and st_['r'].get('k') in ('bin', 'un', 'cast', 'use'):
+                    n_float += 1
+                    if ts_ == 'f32' and (ob.path, bi) not in [(a, b) for a, b, _ in narrow]:
+                        narrow.append((ob.path, bi, ob.where(bi)))
+            t_ = blk['term']
+            if t_['k'] == 'call' and 'ty' in t_['dest'] and ob.tystr(t_['dest']['ty']) == 'f32' and (ob.path, bi) not in [(a, b) for a, b, _ in narrow]:
+                narrow.append((ob.path, bi, ob.where(bi)))
+    chk.analysed['call_sites'] += n_float
+    chk.ob('C07.F6', 'bound:computed-in-double-precision', not narrow, narrow[0][2] if narrow else m.dispatch.where(0),
+           'single-precision values on the way from the report to the bound: %s' % (
+               [(a.split('::')[-1], w) for a, _, w in narrow][:4] or 'none (%d float assignments seen, all f64)' % n_float))
+    chk.floor('C07.F6', 'float assignments on the bound chain', n_float, 3)
     for i in sync:
         where = i['path'].where[2]
         v = i['stores'][bound_field]
